@@ -130,7 +130,7 @@ impl World {
         // A: single shot
         let a: Res<Vec<u8>> = match tag {
             None => su.ss_open(&mode, &sk_r, &enc, &cfg.info, ct, aad),
-            Some(t) => su.ss_open_in_place(&mode, &sk_r, &enc, &cfg.info, ct, aad, t),
+            Some(t) => su.ss_open_in_place(&mode, &sk_r, &enc, &cfg.info, &mut ct.to_vec(), aad, t),
         };
         // B: composed
         let b: Res<Vec<u8>> = match su.setup_receiver(&mode, &sk_r, &enc, &cfg.info) {
@@ -474,6 +474,55 @@ impl World {
         }
     }
 
+    pub fn ev_psk_len_probe(&mut self, psk_len: u64, id_len: u64, cov: &mut Cov) -> V {
+        const CAP: u64 = (1 << 33) + 16;
+        let (a, b) = (psk_len.min(CAP) as usize, id_len.min(CAP) as usize);
+        // one zero buffer, mapped lazily by the allocator and never read by PskBundle::new
+        let big = vec![0u8; a.max(b)];
+        let r = guard(|| hpke::PskBundle::new(&big[..a], &big[..b]).map(|_| ()).map_err(E::from));
+        cov.ops += 1;
+        cov.hit("probe.psk_bundle_huge_lengths");
+        cov.sig_event("PskLen", &format!("{}/{}", a.leading_zeros(), b.leading_zeros()));
+        let want_ok = (a == 0) == (b == 0);
+        match (r, want_ok) {
+            (Ok(Ok(())), true) => Ok(()),
+            (Ok(Err(E::InvalidPskBundle)), false) => Ok(()),
+            (other, _) => Err(self.viol("psk.bundle-rule", format!("{}", if want_ok { "Ok" } else { "Err(InvalidPskBundle)" }), format!("{:?} for |psk|={} |psk_id|={}", other, a, b))),
+        }
+    }
+
+    pub fn ev_seal_crafted(&mut self, c: usize, craft: Craft, len: usize, aad: &[u8], inplace: bool, cov: &mut Cov) -> V {
+        let pt = {
+            let sc = match self.scs.get(c).and_then(|x| x.as_ref()) {
+                Some(s) => s,
+                None => return Ok(()),
+            };
+            let refc = match &sc.refc {
+                Some(r) if sc.cfg.suite.aead.seals() && !sc.m_over => r,
+                _ => return Ok(()),
+            };
+            let len = len.min(1 << 16);
+            let mut want: Vec<u8> = match craft {
+                Craft::PrefixEnc => sc.enc.clone(),
+                Craft::PrefixPkR => self.idents.get(sc.ident).map(|i| i.pk_r.clone()).unwrap_or_default(),
+                Craft::PrefixInfo => sc.cfg.info.0.clone(),
+                Craft::PrefixAad => aad.to_vec(),
+                Craft::Zeros => vec![0u8; len],
+                Craft::Ones => vec![0xffu8; len],
+            };
+            let total = match craft {
+                Craft::Zeros | Craft::Ones => len,
+                _ => want.len() + len,
+            };
+            want.resize(total, 0xA5);
+            // keystream of this position: the model's ciphertext of zeros
+            let ks = refc.seal_at(sc.m_seq as u128, aad, &vec![0u8; total]);
+            (0..total).map(|i| want[i] ^ ks[i]).collect::<Vec<u8>>()
+        };
+        cov.hit(&format!("fault.crafted_ciphertext.{:?}", craft));
+        self.ev_seal(c, &pt, aad, inplace, cov)
+    }
+
     // ------------------------------------------------------------------------------ dispatcher
 
     pub fn apply(&mut self, ev: &Ev, cov: &mut Cov) -> V {
@@ -501,8 +550,11 @@ impl World {
             Ev::DecodeProbe { suite, kind, bytes } => self.ev_decode_probe(*suite, *kind, bytes, cov),
             Ev::WriteExactProbe { suite, kind, bytes, buflen } => self.ev_write_exact_probe(*suite, *kind, bytes, *buflen, cov),
             Ev::PskProbe { psk, psk_id } => self.ev_psk_probe(psk, psk_id, cov),
+            Ev::PskLenProbe { psk_len, id_len } => self.ev_psk_len_probe(*psk_len, *id_len, cov),
+            Ev::SealCrafted { c, craft, len, aad, inplace } => self.ev_seal_crafted(*c, *craft, *len, aad, *inplace, cov),
             Ev::RawOpen { r, ct, aad, tag } => self.ev_raw_open(*r, ct, aad, tag.as_ref().map(|t| &t.0[..]), cov),
             Ev::On { inner, .. } => self.apply(inner, cov),
+            Ev::OnNested { inner, .. } => self.apply(inner, cov),
             Ev::RejectBurst { r, from, n } => self.ev_reject_burst(*r, *from, *n, cov),
             Ev::VolumePump { c, n, len } => self.ev_volume_pump(*c, *n, *len, cov),
             Ev::ExportBurst { c, role, n, len } => {
